@@ -168,6 +168,10 @@ func c07Child() {
 					}
 					c := now()
 					switch {
+					case cur == 0 && i > 1 && wr.IntN(3) == 0:
+						// an update for a source that has nothing loaded at the moment (what the kubernetes provider sends after a
+						// rejected creation or for a rule set that was empty for a while): it simply loads the rules
+						err = a.Proc.OnUpdated(c07RuleSet(w, next, K))
 					case cur == 0:
 						err = a.Proc.OnCreated(c07RuleSet(w, next, K))
 					case wr.IntN(4) == 0:
